@@ -80,7 +80,7 @@ func C19(env *Env) {
 	vopts := pat.Res("0", pat.Call("validate.PolicyToOptions", fromConfig("Policy")))
 	env.requireGates(e, ends, "", []gateSpec{
 		{rule: "EXIT0", name: "config-parsed", m: pat.Bin("==", pat.Call(checkPkg+".parseConfig", pat.Any()), pat.Const("nil")), expect: "parseConfig(*config) == nil"},
-		{rule: "EXIT0", name: "flags-merged", m: pat.Bin("==", pat.Call("go.uber.org/multierr.Combine", pat.Slice(pat.Op(flow.OpArray, "", pat.Call(checkPkg+".populateRootOfTrust"), pat.Call(checkPkg+".populateConfig")), "", "")), pat.Const("nil")), expect: "populateRootOfTrust() and populateConfig() succeed"},
+		{rule: "EXIT0", name: "flags-merged", m: pat.Bin("==", pat.Call("go.uber.org/multierr.Combine", pat.Slice(pat.Op(flow.OpArray, "", pat.CallN(checkPkg+".populateRootOfTrust"), pat.CallN(checkPkg+".populateConfig")), "", "")), pat.Const("nil")), expect: "populateRootOfTrust() and populateConfig() succeed"},
 		{rule: "EXIT0", name: "quote-read", m: pat.Bin("==", pat.Res("1", pat.Call(checkPkg+".readQuote")), pat.Const("nil")), expect: "readQuote() error == nil"},
 		{rule: "EXIT0", name: "root-of-trust", m: pat.Bin("==", pat.Res("1", pat.Call("verify.RootOfTrustToOptions", fromConfig("RootOfTrust"))), pat.Const("nil")), expect: "verify.RootOfTrustToOptions(config.RootOfTrust) error == nil"},
 		{rule: "EXIT0", name: "verify", m: pat.Bin("==", pat.Call("verify.TdxQuote", quote, sopts), pat.Const("nil")), expect: "verify.TdxQuote(quote, options from config.RootOfTrust) == nil"},
@@ -701,16 +701,27 @@ func (env *Env) c19Flags() {
 		f := env.P.Func(checkPkg, w.fn)
 		found := false
 		for _, c := range env.P.Callers[f] {
+			if len(c.Common().Args) < 2 {
+				continue
+			}
 			dest := e.Eval(c.Common().Args[0], e.UnknownCtx(c.Parent()))
-			nm := e.Eval(c.Common().Args[1], e.UnknownCtx(c.Parent()))
 			d := flow.StripConv(dest)
-			if d.Op == flow.OpAddr && d.Args[0].Op == flow.OpField && d.Args[0].Name == w.dest && flow.StripConv(nm).IsConst(w.name) {
-				// the flag value is the same-named flag variable
-				fv := e.Eval(c.Common().Args[2], e.UnknownCtx(c.Parent()))
-				if strings.Contains(fv.String(), "flag.String") || strings.Contains(fv.String(), "@"+checkPkg+".") {
-					found = true
-					r.OK("C19/FLAG", w.dest, env.P.Pos(c.Pos()), w.fn+"(&"+w.dest+", "+w.name+", flag)")
+			// the flag's name and text are arguments of their own or members of a
+			// parameter struct describing the flag
+			named, fromFlag := false, false
+			for _, a := range c.Common().Args[1:] {
+				at := e.Eval(a, e.UnknownCtx(c.Parent()))
+				if at.Contains(func(x *flow.Term) bool { return x.IsConst(w.name) }) {
+					named = true
 				}
+				// the flag value is the same-named flag variable
+				if strings.Contains(at.String(), "flag.String") || strings.Contains(at.String(), "@"+checkPkg+".") {
+					fromFlag = true
+				}
+			}
+			if d.Op == flow.OpAddr && d.Args[0].Op == flow.OpField && d.Args[0].Name == w.dest && named && fromFlag {
+				found = true
+				r.OK("C19/FLAG", w.dest, env.P.Pos(c.Pos()), w.fn+"(&"+w.dest+", "+w.name+", flag)")
 			}
 		}
 		if !found {
